@@ -141,9 +141,11 @@ pub fn cmd_c17(tier: &str, out: &str) {
     // long noise runs (counter widths): RLE stimulus [[byte,count]...] then a frame / end of input
     let longs: Vec<usize> = if tier == "thorough" { vec![254, 255, 256, 65534, 65535, 65536, 65537, 131073, 1 << 20, 1 << 24] } else { vec![255, 256, 65535, 65536, 65537, 131073] };
     for n in longs {
-        for (b, tail) in [(0xaau8, 0usize), (0xaa, 1), (0x1b, 0), (0xaa, 2)] {
-            // tail 0: noise then frame; 1: noise then end of input; 2: noise, partial start sequence, then frame
-            let mut s = vec![b; n];
+        for (b, tail) in [(0xaau8, 0usize), (0xaa, 1), (0x1b, 0), (0xaa, 2), (0xaa, 3), (0xaa, 4), (0x00, 3)] {
+            // tail 0: noise then frame; 1: noise then end of input; 2: noise, partial start sequence, then frame;
+            // 3: a cut-off *transmission* of n bytes (start sequence first), then a frame; 4: the same, then end of input
+            let mut s = if tail >= 3 { START.to_vec() } else { vec![] };
+            s.extend(vec![b; n]);
             if b == 0x1b {
                 s.push(0x55);
             }
@@ -151,7 +153,7 @@ pub fn cmd_c17(tier: &str, out: &str) {
                 s.extend([0x1b, 0x1b, 0x1b, 0x1b, 1, 1]);
             }
             let noise_len = s.len();
-            if tail != 1 {
+            if tail != 1 && tail != 4 {
                 s.extend(frame(&[0x12, 0x34]));
             }
             let ops: Vec<u32> = s.iter().map(|x| *x as u32).collect();
